@@ -34,6 +34,7 @@ func jitter(i int) (float64, float64) {
 }
 
 type cfg struct {
+	pair   string // "", "y" or "x": consecutive point pairs share that coordinate exactly
 	name   string
 	eps    float64
 	scale  float64
@@ -100,8 +101,8 @@ func build(pts []v2.Vec) (*tables, string) {
 	}
 	for i := 0; i < n; i++ {
 		for j := i + 1; j < n; j++ {
-			if pts[i].X == pts[j].X {
-				return nil, fmt.Sprintf("points %d,%d share x", i, j)
+			if pts[i] == pts[j] {
+				return nil, fmt.Sprintf("points %d,%d coincide", i, j)
 			}
 			for k := j + 1; k < n; k++ {
 				o := int8(orient(pts[i], pts[j], pts[k]))
@@ -197,13 +198,14 @@ func main() {
 	var smallMu = make(chan struct{}, 1)
 	smallMu <- struct{}{}
 
-	cfgs := []cfg{{"jitter0.3", 0.3, 1, 0, 0, 4}, {"jitter1e-2", 1e-2, 1, 0, 0, 4}}
+	cfgs := []cfg{{"", "jitter0.3", 0.3, 1, 0, 0, 4}, {"", "jitter1e-2", 1e-2, 1, 0, 0, 4},
+		{"y", "jitter0.3,pairs-share-y", 0.3, 1, 0, 0, 4}, {"x", "jitter0.3,pairs-share-x", 0.3, 1, 0, 0, 4}, {"", "jitter0.3*2^-9", 0.3, 1.0 / 512, 0, 0, 4}}
 	if c.Thorough() {
-		cfgs = append(cfgs, cfg{"jitter1e-4", 1e-4, 1, 0, 0, 4}, cfg{"jitter0.3*2^20", 0.3, 1 << 20, 0, 0, 4},
-			cfg{"jitter0.3*2^-20", 0.3, 1.0 / (1 << 20), 0, 0, 4}, cfg{"jitter0.3+offset(4096,-8192)", 0.3, 1, 4096, -8192, 4},
-			cfg{"jitter1e-2+offset", 1e-2, 1, -1024, 512, 4}, cfg{"5x5jitter0.3", 0.3, 1, 0, 0, 5})
+		cfgs = append(cfgs, cfg{"", "jitter1e-4", 1e-4, 1, 0, 0, 4}, cfg{"", "jitter0.3*2^20", 0.3, 1 << 20, 0, 0, 4},
+			cfg{"", "jitter0.3*2^-20", 0.3, 1.0 / (1 << 20), 0, 0, 4}, cfg{"", "jitter0.3+offset(4096,-8192)", 0.3, 1, 4096, -8192, 4},
+			cfg{"", "jitter1e-2+offset", 1e-2, 1, -1024, 512, 4}, cfg{"", "5x5jitter0.3", 0.3, 1, 0, 0, 5})
 	} else {
-		cfgs = append(cfgs, cfg{"jitter0.3*2^20", 0.3, 1 << 20, 0, 0, 4}, cfg{"jitter0.3+offset(4096,-8192)", 0.3, 1, 4096, -8192, 4})
+		cfgs = append(cfgs, cfg{"", "jitter0.3*2^20", 0.3, 1 << 20, 0, 0, 4}, cfg{"", "jitter0.3+offset(4096,-8192)", 0.3, 1, 4096, -8192, 4})
 	}
 	for _, cf := range cfgs {
 		var pts []v2.Vec
@@ -213,7 +215,20 @@ func main() {
 			y := (float64(i/cf.grid) + cf.eps*jy)
 			pts = append(pts, v2.Vec{X: (x + cf.ox) * cf.scale, Y: (y + cf.oy) * cf.scale})
 		}
-		sort.Slice(pts, func(i, j int) bool { return pts[i].X < pts[j].X })
+		for i := 0; i+1 < len(pts); i += 2 {
+			switch cf.pair {
+			case "y":
+				pts[i+1].Y = pts[i].Y
+			case "x":
+				pts[i+1].X = pts[i].X
+			}
+		}
+		sort.Slice(pts, func(i, j int) bool {
+			if pts[i].X != pts[j].X {
+				return pts[i].X < pts[j].X
+			}
+			return pts[i].Y < pts[j].Y
+		})
 		tb, why := build(pts)
 		if tb == nil {
 			c.HarnessError("configuration %s is not in general position: %s", cf.name, why)
@@ -256,9 +271,18 @@ func main() {
 				c.Violation("Delaunay2d|error", fmt.Sprintf("%s %v: error %v", cf.name, S, err), rep(nil))
 				return
 			}
-			// after the call `in` is sorted by x: local index i == S[i] (distinct x), verify
+			// after the call `in` is sorted by x (ties in unspecified order): map result indices to ours
+			loc := make([]int, n)
+			seen := make([]bool, n)
 			for i := range in[:n] {
-				if in[i] != pts[S[i]] {
+				loc[i] = -1
+				for g := 0; g < n; g++ {
+					if !seen[g] && in[i] == pts[S[g]] {
+						loc[i], seen[g] = g, true
+						break
+					}
+				}
+				if loc[i] < 0 || (i > 0 && in[i].X < in[i-1].X) {
 					c.Violation("Delaunay2d|input-not-sorted-in-place", fmt.Sprintf("%s %v: vertex %d after the call is %v", cf.name, S, i, in[i]), rep(nil))
 					return
 				}
@@ -340,7 +364,7 @@ func main() {
 					bad = true
 					break
 				}
-				k := tri3(t[0], t[1], t[2])
+				k := tri3(loc[t[0]], loc[t[1]], loc[t[2]])
 				got[k]++
 				gl = append(gl, k)
 			}
@@ -449,9 +473,12 @@ func main() {
 					if len(missing) == 0 && len(extra) == 0 {
 						// orientation of both results must agree for Equals to hold; the property only
 						// states set equality, so Equals is exercised on orientation-normalised copies
-						norm := func(ts render.TriangleISet) render.TriangleISet {
+						norm := func(ts render.TriangleISet, mp []int) render.TriangleISet {
 							o := make(render.TriangleISet, len(ts))
 							for i, t := range ts {
+								if mp != nil {
+									t = render.TriangleI{mp[t[0]], mp[t[1]], mp[t[2]]}
+								}
 								if tb.orient[S[t[0]]][S[t[1]]][S[t[2]]] < 0 {
 									t[1], t[2] = t[2], t[1]
 								}
@@ -460,7 +487,7 @@ func main() {
 							return o
 						}
 						cmp++
-						if !norm(fast).Equals(norm(slow)) {
+						if !norm(fast, loc).Equals(norm(slow, nil)) {
 							c.Violation("TriangleISet.Equals|false-for-equal-sets(real triangulations)", fmt.Sprintf("%s %v: Equals(fast, slow) false although both are the same set: fast %v slow %v", cf.name, S, fast, slow), rep(map[string]any{"fast": fast, "slow": slow}))
 						}
 					}
